@@ -12,4 +12,7 @@ if [ ! -x bin/ikelint ] || [ -n "$(find checker -name '*.go' -newer bin/ikelint 
   (cd checker && go build -o ../bin/ikelint ./cmd/ikelint) || { echo "CANNOT-DECIDE: checker does not build"; exit 2; }
 fi
 mkdir -p evidence
+# engine self-test on the fixture module: a rule that stopped firing on its must-flag miniature
+# (or fires on its must-pass miniature) makes the run undecidable (exit 2)
+./bin/ikelint -selftest "$(pwd)/fixtures" >/dev/null || { ./bin/ikelint -selftest "$(pwd)/fixtures"; echo "CANNOT-DECIDE: checker self-test failed"; exit 2; }
 exec ./bin/ikelint -repo "$REPO" -prop "$PROP" -tier "$TIER" -out "$(pwd)/evidence" -known "$(pwd)/known_findings.json"
